@@ -169,8 +169,12 @@ func (p *Provider) GetMetadata(ctx context.Context) (*md.EntityDescriptorType, e
 		return nil, err
 	}
 
-	cert, key, err := getMetadataCert(ctx, p.storage)
 	if p.conf.MetadataConfig != nil && p.conf.MetadataConfig.SignatureAlgorithm != "" {
+		cert, key, err := getMetadataCert(ctx, p.storage)
+		if err != nil {
+			return nil, err
+		}
+
 		signer, err := signature.GetSigner(cert, key, p.conf.MetadataConfig.SignatureAlgorithm)
 		if err != nil {
 			return nil, err
@@ -192,7 +196,7 @@ func getMetadataCert(ctx context.Context, storage EntityStorage) ([]byte, *rsa.P
 		return nil, nil, err
 	}
 
-	if certAndKey.Key == nil || certAndKey.Certificate == nil {
+	if certAndKey == nil || certAndKey.Key == nil || certAndKey.Certificate == nil {
 		return nil, nil, fmt.Errorf("signer has no key")
 	}
 
